@@ -36,6 +36,7 @@ type Loaded struct {
 	loadSeconds        float64
 	disable            map[string]bool
 	zeroStubs          map[string]bool
+	zeroPkgs           map[string]bool
 }
 
 const rtPkgPath = "github.com/safing/portbase/zz_verifrt"
@@ -61,6 +62,8 @@ var defaultZeroStubs = []string{
 // engine's intrinsics never look at them)
 var zeroOKGlobals = map[string]bool{
 	"internal/bytealg.MaxLen": true,
+	// nil *Location means UTC; location is irrelevant for instants
+	"time.Local": true, "time.UTC": true, "time.localLoc": true, "time.utcLoc": true,
 }
 
 // packages all of whose globals may be used zero-initialised
@@ -96,7 +99,7 @@ func loadProgram(repo string, overlay map[string][]byte, patterns []string, init
 	ld := &Loaded{prog: prog, fset: prog.Fset, pkgs: map[string]*ssa.Package{},
 		initAllow: map[string]bool{}, globalAllow: map[string]bool{},
 		intrCache: map[*ssa.Function]intrinsicFn{}, intrKnown: map[*ssa.Function]bool{},
-		redirCache: map[*ssa.Function]*ssa.Function{}, zeroStubs: map[string]bool{}}
+		redirCache: map[*ssa.Function]*ssa.Function{}, zeroStubs: map[string]bool{}, zeroPkgs: map[string]bool{}}
 	for _, z := range defaultZeroStubs {
 		ld.zeroStubs[z] = true
 	}
@@ -140,7 +143,7 @@ func (ld *Loaded) initAllowed(p *ssa.Package) bool {
 // used zero-initialised.
 func (ld *Loaded) globalOK(g *ssa.Global) bool {
 	path := g.Pkg.Pkg.Path()
-	if zeroOKPkgs[path] || zeroOKGlobals[path+"."+g.Name()] {
+	if zeroOKPkgs[path] || ld.zeroPkgs[path] || zeroOKGlobals[path+"."+g.Name()] {
 		return true
 	}
 	return ld.globalAllow[path+"."+g.Name()]
